@@ -9,7 +9,7 @@
 From Coq Require Import List ZArith.
 From TK Require Import FibHeap_Model FibHeap_Dn FibHeap_SpecExec FibHeap_Proof_Basics
   FibHeap_Proof_Degree FibHeap_Proof_Decrease FibHeap_Proof_Extract FibHeap_Proof_Main
-  FibHeap_Proof_Refuted FibHeap_State HeapState.
+  FibHeap_Proof_Refuted FibHeap_State HeapState FibHeap_Proof_Many.
 Import ListNotations.
 Local Open Scope Z_scope.
 
@@ -116,3 +116,33 @@ Theorem fh_state_ok_means : forall fields statics, heap_state_ok fields statics 
   (forall r m, In (r, m) accounted -> exists t, In (r, m, t) fields).
 Proof. exact FibHeap_State.heap_state_ok_sound. Qed.
 Print Assumptions fh_state_ok_means.
+
+(* T7 several heaps alive at once (one per thread in compute_shortest_distances_matrix): a family of heaps driven by
+   operations tagged with the heap they address, in ANY interleaving.  Each heap goes through exactly the history
+   addressed to it and sees exactly the outputs it would see alone (fh_many_projects); if every heap completes its own
+   history every interleaving completes (fh_many_completes); hence every heap of the family refines the finite map
+   (fh_many_refine).  The lift of `step` to the family (one operation touches one member only) is what
+   fh_state_is_own_record licenses for the C++ and what the concurrent stream of the check (harness command P)
+   observes. *)
+Theorem fh_many_projects : forall ops f f' xs, run_many f ops = Ok (f', xs) ->
+  forall j, run (f j) (proj j ops) = Ok (f' j, proj j xs).
+Proof. exact FibHeap_Proof_Many.many_projects. Qed.
+Print Assumptions fh_many_projects.
+
+Theorem fh_many_completes : forall ops f, (forall j, exists r, run (f j) (proj j ops) = Ok r) ->
+  exists r, run_many f ops = Ok r.
+Proof. exact FibHeap_Proof_Many.many_completes. Qed.
+Print Assumptions fh_many_completes.
+
+Theorem fh_many_refine : forall ops cap dn f' xs, (forall j, 0 <= cap j) ->
+  run_many (fun j => empty_heap (cap j) (dn j)) ops = Ok (f', xs) ->
+  forall j, Inv (f' j) /\ spec_run_b (cap j) [] (proj j ops) (proj j xs) 0 = None.
+Proof. exact FibHeap_Proof_Many.many_refine. Qed.
+Print Assumptions fh_many_refine.
+
+Example fh_many_nonvacuous : exists f' xs,
+  run_many (fun j => empty_heap (if Nat.eqb j 0 then 4 else 8) 4)
+           [(0%nat, Insert 0 5); (1%nat, Insert 3 2); (0%nat, Insert 1 3); (1%nat, Insert 0 9); (1%nat, ExtractMin);
+            (0%nat, ExtractMin); (1%nat, Decrease 0 1); (0%nat, ExtractMin); (1%nat, ExtractMin); (0%nat, ExtractMin)]
+  = Ok (f', xs) /\ length (proj 0 xs) = 5%nat /\ length (proj 1 xs) = 5%nat.
+Proof. exact FibHeap_Proof_Many.many_nonvacuous. Qed.
